@@ -72,6 +72,7 @@ int pem_read(FILE *fp, const char *name, uint8_t *data, size_t *datalen, size_t 
 	char line[80];
 	char begin_line[80];
 	char end_line[80];
+	uint8_t buf[128]; // one line of at most 79 chars plus the decoder's pending 63
 	int len;
 	BASE64_CTX ctx;
 
@@ -116,12 +117,29 @@ int pem_read(FILE *fp, const char *name, uint8_t *data, size_t *datalen, size_t 
 			break;
 		}
 
-		base64_decode_update(&ctx, (uint8_t *)line, (int)strlen(line), data, &len);
+		// decode into a local buffer: the decoder may write up to two bytes more than it reports
+		if (base64_decode_update(&ctx, (uint8_t *)line, (int)strlen(line), buf, &len) < 0) {
+			error_print();
+			return -1;
+		}
+		if (len < 0 || (size_t)len > maxlen - *datalen) {
+			error_print();
+			return -1;
+		}
+		memcpy(data, buf, len);
 		data += len;
 		*datalen += len;
 	}
 
-	base64_decode_finish(&ctx, data, &len);
+	if (base64_decode_finish(&ctx, buf, &len) != 1) {
+		error_print();
+		return -1;
+	}
+	if (len < 0 || (size_t)len > maxlen - *datalen) {
+		error_print();
+		return -1;
+	}
+	memcpy(data, buf, len);
 	*datalen += len;
 	return 1;
 }
